@@ -206,6 +206,7 @@ class Program:
                     inline.inline_nested_unknown(trees, self.norm_report)
                     unextract.inline_constants(trees, self.norm_report)
                     unextract.inline_class_constants(trees, self.norm_report)
+                    unextract.inline_namespace_constants(trees, self.norm_report)
                     unextract.unextract_variables(trees, self.norm_report)
                     if len(self.norm_report) == n1:
                         break
